@@ -375,7 +375,7 @@ pub fn base_spec(shape: usize, packaging: Packaging, comp: Comp, seed: u32) -> C
             packaging,
             comp,
             contents: vec![c(120, Entropy::Text, Hint::Yes, 5), c(33, Entropy::High, Hint::No, 6), c(0, Entropy::Zero, Hint::No, 7)],
-            extra_packs: vec![ExtraPack { comp, contents: vec![c(64, Entropy::Low, Hint::Yes, 8), c(5, Entropy::Text, Hint::No, 9)] }],
+            extra_packs: vec![ExtraPack { comp, contents: vec![c(64, Entropy::Low, Hint::Yes, 8), c(5, Entropy::Text, Hint::No, 9)], id_class: 0 }],
             dedup: false,
             dir: DirSpec {
                 vstores: vec![StoreKind::Indexed],
@@ -667,6 +667,9 @@ pub fn judge_c04(base: &Base, file: usize, uuid: &str, d: &FDump) -> Option<Fail
     let key = format!("{}|{}", base.files[file], uuid);
     if !not_success(d.pack_checks.get(&key)) {
         return Some(Failure::new("pack-check-true-after-alteration", format!("check of pack {key} answers Ok(true) although a byte of its checked range was altered")));
+    }
+    if !not_success(d.file_checks.get(&base.files[file])) {
+        return Some(Failure::new("file-check-true-after-alteration", format!("ContainerPack::check of file {} answers Ok(true) although a byte of the checked range of pack {key} in it was altered", base.files[file])));
     }
     if matches!(d.open, Some(Acc::Ok(()))) && !not_success(d.container_check.as_ref()) {
         return Some(Failure::new("container-check-true-after-alteration", format!("Container::check answers Ok(true) although a byte of the checked range of pack {key} was altered")));
